@@ -385,6 +385,8 @@ def build_step(ck, v6, preset, xb, op, src, obs=None):
         G["admitted_only_while_every_level_is_below_its_cap"] = z3.Implies(z3.And(ok, parsed), below)
         G["refused_peer_holds_nothing"] = z3.Implies(z3.And(z3.Not(ok), vok), z3.Not(pres1))
         G["validator_refusal_changes_nothing"] = z3.Implies(z3.Not(vok), z3.And(z3.Not(ok), pres1 == pres0, listed1 == listed0))
+        # a counted peer never turns into an uncounted listed one (it would no longer weigh on the caps of its own subnets)
+        G["a_peer_that_held_slots_and_is_still_listed_still_holds_a_record"] = z3.Implies(z3.And(pres0, listed1), pres1)
     else:
         G["removed_peer_holds_nothing_and_is_not_listed"] = z3.And(z3.Not(pres1), z3.Not(listed1))
     R = {"eng": eng, "hyps": hyps, "goals": {g: z3.Implies(pc, f) for g, f in G.items()}}
